@@ -6,8 +6,9 @@ import QV.Spec.CxxLit
   Driver handlers of C16.
     (c16-inv "qml" "Type" (objs (o "name" (props (p "n" CODE)…) (cbs (cb "signal" (uses …) (lits …))…))…))
         CODE = (e dyn|const OBSERVERS (uses max|min|log|tr|fmod …) (lits (q "s")|(c "s") …)
-               (enums (ev "Parent" "Enum" scoped|unscoped "Variant") …)) | (g (p "n" CODE)…)
-      → (inv (includes …) (calls …) (index …) (defs …) (guard none|N) (observers ("name" N)…) (lits (q "sp")…) (enums "Parent::Enum::Variant" …))
+               (enums (ev "Parent" "Enum" scoped|unscoped "Variant") …)
+               (casts AS_INT (bit u|b lScoped rScoped) …)) | (g (p "n" CODE)…)
+      → (inv (includes …) (calls …) (index …) (defs …) (guard none|N) (observers ("name" N)…) (lits (q "sp")…) (enums "Parent::Enum::Variant" …) (int-casts N))
     (c16-lit "s" style)         → (lit (q "sp") (c "sp") (c "sp"))      model of formatStringLiteral
     (spec-cxxlit u16|narrow "spelling"…) → (decoded (units …)|(ill-formed) …)   Spec.CxxLit
   The driver sorts properties / gadget members / callbacks by name (code-point order = UTF-8 byte order, C08) and
@@ -54,12 +55,34 @@ private def enums? : Sexp → Option (List EnumUse)
   | .list (.atom "enums" :: es) => Sexp.mapM? enumUse? es
   | _ => none
 
+private def bitUse? : Sexp → Option BitUse
+  | .list [.atom "bit", .atom k, l, r] =>
+    match l.toBool?, r.toBool? with
+    | some l, some r => some { unary := k == "u", lScoped := l, rScoped := r }
+    | _, _ => none
+  | _ => none
+
+/-- `(casts AS_INT (bit u|b lScoped rScoped)…)` -/
+private def casts? : Sexp → Option (Nat × List BitUse)
+  | .list (.atom "casts" :: n :: bs) =>
+    match n.toNat?, Sexp.mapM? bitUse? bs with
+    | some n, some bs => some (n, bs)
+    | _, _ => none
+  | _ => none
+
 private def lits? : Sexp → Option (List (Bool × List Char))
   | .list (.atom "lits" :: ls) => Sexp.mapM? lit? ls
   | _ => none
 
 /-- a property `(p "n" CODE)` at `depth` → its pre-order node list -/
 private partial def prop? (depth : Nat) : Sexp → Option (List Char × List PNode)
+  | .list [.atom "p", .str n, .list [.atom "e", .atom d, obs, us, ls, es, cs]] =>
+    match obs.toNat?, uses? us, lits? ls, enums? es, casts? cs with
+    | some o, some u, some l, some e, some c =>
+      some (n, [{ depth := depth, name := n,
+                  kind := .expr { dynamic := d == "dyn", observers := o, uses := u, lits := l, enums := e,
+                                  asIntCasts := c.1, bitops := c.2 } }])
+    | _, _, _, _, _ => none
   | .list [.atom "p", .str n, .list [.atom "e", .atom d, obs, us, ls, es]] =>
     match obs.toNat?, uses? us, lits? ls, enums? es with
     | some o, some u, some l, some e =>
@@ -80,6 +103,11 @@ private partial def prop? (depth : Nat) : Sexp → Option (List Char × List PNo
   | _ => none
 
 private def cb? : Sexp → Option Callback
+  | .list [.atom "cb", .str s, us, ls, es, cs] =>
+    match uses? us, lits? ls, enums? es, casts? cs with
+    | some u, some l, some e, some c =>
+      some { signal := s, uses := u, lits := l, enums := e, asIntCasts := c.1, bitops := c.2 }
+    | _, _, _, _ => none
   | .list [.atom "cb", .str s, us, ls, es] =>
     match uses? us, lits? ls, enums? es with
     | some u, some l, some e => some { signal := s, uses := u, lits := l, enums := e }
@@ -114,7 +142,8 @@ def handleInventory (args : List Sexp) : Sexp :=
           .list [.atom "guard", match b.guard with | none => .atom "none" | some n => .ofNat n],
           .list (.atom "observers" :: b.observerDecls.map (fun d => .list [.str d.1, .ofNat d.2])),
           .list (.atom "lits" :: b.lits.map (fun l => .list [.atom (if l.1 then "q" else "c"), .str l.2])),
-          .list (.atom "enums" :: b.enums.map Sexp.str)]
+          .list (.atom "enums" :: b.enums.map Sexp.str),
+          .list [.atom "int-casts", .ofNat b.intCasts]]
     | none => .list [.atom "bad-request"]
   | _ => .list [.atom "bad-request"]
 
